@@ -148,7 +148,7 @@ func body(c cfg, r *run) func(*vsched.Exec) {
 		}
 		*r = run{c: c, answers: map[gostatsd.Source]int{}, lastGood: map[gostatsd.Source]string{}, seenPositive: map[gostatsd.Source]bool{}, everGood: map[gostatsd.Source]map[string]bool{}, callObj: new(int)}
 		ctx, mock := fx.NewClock(context.Background())
-		ccp := cloudprovider.NewCachedCloudProvider(fx.Quiet(), rate.NewLimiter(rate.Inf, 1), provider{r}, gostatsd.CacheOptions{CacheRefreshPeriod: refresh, CacheEvictAfterIdlePeriod: c.Idle, CacheTTL: ttl, CacheNegativeTTL: negTTL})
+		ccp := cloudprovider.NewCachedCloudProvider(fx.Quiet(), rate.NewLimiter(rate.Limit(1e9), 1) /* finite, burst smaller than a batch: one token per provider call, never a wait worth mentioning */, provider{r}, gostatsd.CacheOptions{CacheRefreshPeriod: refresh, CacheEvictAfterIdlePeriod: c.Idle, CacheTTL: ttl, CacheNegativeTTL: negTTL})
 		r.ccp = ccp
 		vsched.GoNamed("ccp.Run", func() { ccp.Run(ctx) })
 		vsched.Quiesce("started") // Run has created its refresh ticker at t=0: ticks fire at exactly 10s, 20s
